@@ -56,6 +56,25 @@ type Outer struct {
 	Age  int
 }
 
+// Odd Go kinds a caller might put in a data map.
+type MyStr string
+type MyInt int
+type MyFloat float64
+type MyMap map[string]interface{}
+type MyList []interface{}
+type Named struct{ V int }
+
+func (n Named) String() string { return fmt.Sprintf("Named(%d)", n.V) }
+
+type Holder struct {
+	I   interface{}
+	S   fmt.Stringer
+	Err error
+	PP  **int
+	Arr [3]int
+	B   []byte
+}
+
 func Nil() V         { return V{K: "nil"} }
 func Bool(b bool) V  { return V{K: "bool", B: b} }
 func Str(s string) V { return V{K: "str", S: s} }
@@ -252,6 +271,59 @@ func Build(v V, env *Env) interface{} {
 			}
 		}
 		return o
+	case "mystr":
+		return MyStr(v.S)
+	case "myint":
+		return MyInt(v.I)
+	case "myf64":
+		return MyFloat(v.F())
+	case "mymap":
+		return MyMap{"k": 1, "s": "v"}
+	case "mylist":
+		return MyList{1, "x", nil}
+	case "arr3":
+		return [3]int{1, 2, 3}
+	case "strarr2":
+		return [2]string{"a", "b"}
+	case "ppint":
+		x := int(v.I)
+		px := &x
+		return &px
+	case "pmap":
+		m := map[string]interface{}{"k": 1}
+		return &m
+	case "mapik":
+		return map[int]int{1: 2, 3: 4}
+	case "mapifk":
+		return map[interface{}]interface{}{"k": 1, 2: "two"}
+	case "chan":
+		return make(chan int, 1)
+	case "stringer":
+		return Named{int(v.I)}
+	case "pstringer":
+		return &Named{int(v.I)}
+	case "holder":
+		x := 5
+		px := &x
+		return Holder{I: (*int)(nil), S: Named{1}, Err: errors.New("e"), PP: &px, Arr: [3]int{7, 8, 9}, B: []byte("bytes")}
+	case "nilholder":
+		return Holder{}
+	case "listnil":
+		return []interface{}{(*int)(nil), nil, (*decimal.Big)(nil)}
+	case "bytes":
+		return []byte(v.S)
+	case "errval":
+		return errors.New("an error value")
+	case "cplx":
+		return complex(1, 2)
+	case "uintptr":
+		return uintptr(42)
+	case "nilfunc":
+		return (func() (int, error))(nil)
+	case "nilslice":
+		return []interface{}(nil)
+	case "nilstrs":
+		return []string(nil)
 	case "nildec":
 		return (*decimal.Big)(nil)
 	case "nilptr":
@@ -424,7 +496,7 @@ func RandValue(r *rand.Rand, depth int) V {
 	if depth <= 0 || r.Intn(3) != 0 {
 		return RandScalar(r)
 	}
-	switch r.Intn(14) {
+	switch r.Intn(16) {
 	case 0, 1:
 		n := r.Intn(4)
 		l := make([]V, n)
@@ -473,9 +545,19 @@ func RandValue(r *rand.Rand, depth int) V {
 			l[i] = RandMap(r, 0, 2)
 		}
 		return Typed("maps", l...)
-	default:
+	case 13:
 		return Fn(FnIDs[r.Intn(len(FnIDs))])
+	default:
+		return OddKind(r)
 	}
+}
+
+var oddKinds = []string{"mystr", "myint", "myf64", "mymap", "mylist", "arr3", "strarr2", "ppint", "pmap", "mapik", "mapifk", "chan", "stringer", "pstringer", "holder", "nilholder", "listnil", "bytes", "errval", "cplx", "uintptr", "nilfunc", "nilslice", "nilstrs", "nilmap", "emptylist"}
+
+// OddKind draws a value of a Go kind or shape that ordinary tests do not think of.
+func OddKind(r *rand.Rand) V {
+	k := oddKinds[r.Intn(len(oddKinds))]
+	return V{K: k, S: strPool[r.Intn(len(strPool))], I: int64(r.Intn(100)), U: math.Float64bits(float64(r.Intn(100)) / 4)}
 }
 
 var keyPool = []string{"a", "b", "c", "k", "name", "x1", "len", "max", "now", "true", "A", "S", "F", "M", "P", "priv", "$v", "名"}
